@@ -259,6 +259,24 @@ pub fn candidates(tier: Tier) -> Vec<Cand> {
             }
         }
     }
+    // --- a guard of one kind (attribute / tag) in front of an access of the other kind with the
+    // same name (after hand mutant c03_tag_capability_is_attribute_capability) ---
+    {
+        let eq = |a: E, b_: E| E::bin(BinOp::Eq, a, b_);
+        let confusable: Vec<(E, E)> = vec![
+            (E::has(p(), "nick"), eq(E::bin(BinOp::GetTag, p(), E::str("nick")), E::str("x"))),
+            (E::has(r(), "ip"), E::bin(BinOp::Gt, E::bin(BinOp::GetTag, r(), E::str("ip")), E::Long(0))),
+            (E::bin(BinOp::HasTag, p(), E::str("nick")), eq(E::attr(p(), "nick"), E::str("al"))),
+            (E::bin(BinOp::HasTag, p(), E::str("mgr")), eq(E::attr(p(), "mgr"), E::Ent(ub()))),
+            (E::bin(BinOp::HasTag, r(), E::str("ip")), E::ext("isIpv4", vec![E::attr(r(), "ip")])),
+        ];
+        for (g, a) in &confusable {
+            for s in must_accept_shapes(g, a, &sf[0]) {
+                push(s, false, &mut out, &view_scope);
+            }
+            push(E::and(E::and(g.clone(), sf[1].clone()), a.clone()), false, &mut out, &view_scope);
+        }
+    }
     // --- general depth 1/2 over the vocabulary ---
     let bin_ops = [BinOp::Eq, BinOp::Neq, BinOp::Lt, BinOp::Le, BinOp::Add, BinOp::Mul, BinOp::In, BinOp::Contains, BinOp::ContainsAll, BinOp::ContainsAny, BinOp::GetTag, BinOp::HasTag];
     for x in &at {
